@@ -213,4 +213,53 @@ theorem tie_drainScope :
 theorem tie_moveImmediateScope :
     moveImmediateNest = [.goSafe] ∧ (moveImmediateNest.any Nest.recovers ∧ moveImmediateNest.any Nest.spawns) = true := by decide
 
+/-! ### round 5c: the public methods and the run loop as typed tables, composed -/
+
+/-- the public method a call of the model is (a tick comes from the ticker, Stop closes the stop channel). -/
+def methodOfCall : Call → Option String
+  | .setTimer _ _ _ => some "SetTimer"
+  | .moveTimer _ _ => some "MoveTimer"
+  | .removeTimer _ => some "RemoveTimer"
+  | .drain => some "Drain"
+  | _ => none
+
+/-- the handler the model runs for an accepted call (`ApiG.step` → `Op` → `stepWith`). -/
+def handlerOfCall : Call → Option String
+  | .setTimer _ _ _ => some "setTask"
+  | .moveTimer _ _ => some "moveTask"
+  | .removeTimer _ => some "removeTask"
+  | .drain => some "drainAll"
+  | _ => none
+
+/-- Go: the channel the method sends on, then the handler `run` calls for what it receives from that channel. -/
+def goHandlerOfCall (c : Call) : Option String := do
+  let m ← methodOfCall c
+  let row ← apiSends.find? (·.method = m)
+  let d ← runDispatch.find? (·.chan = row.chan)
+  pure d.handler
+
+/-- [semantic, for every call]  method → channel → handler in the Go source is the handler the model runs: a method
+sending on another method's channel, or `run` dispatching a channel to another handler, breaks this. -/
+theorem tie_methodToHandler (c : Call) : goHandlerOfCall c = handlerOfCall c := by
+  cases c <;> rfl
+
+/-- every public method: the request carries exactly the caller's arguments (delay, key, value / delay, key / key / fn),
+returns nil once the loop HAS the request (send on an unbuffered channel) and ErrClosed when stopChannel is closed. -/
+theorem tie_apiSends : apiSends =
+    [⟨"SetTimer", "setChannel", [("delay", "delay"), ("key", "key"), ("value", "value")], "nil", "stopChannel", "ErrClosed"⟩,
+     ⟨"MoveTimer", "moveChannel", [("delay", "delay"), ("key", "key")], "nil", "stopChannel", "ErrClosed"⟩,
+     ⟨"RemoveTimer", "removeChannel", [("", "key")], "nil", "stopChannel", "ErrClosed"⟩,
+     ⟨"Drain", "drainChannel", [("", "fn")], "nil", "stopChannel", "ErrClosed"⟩] := by decide
+
+/-- `run`: every channel is dispatched to its handler with what was received; the tick goes to onTick; only the
+stop channel ends the loop, after stopping the ticker; each channel appears once. -/
+theorem tie_runDispatch : runDispatch =
+    [⟨"ticker.Chan()", "", "onTick", [], false⟩,
+     ⟨"setChannel", "task", "setTask", ["&task"], false⟩,
+     ⟨"removeChannel", "key", "removeTask", ["key"], false⟩,
+     ⟨"moveChannel", "task", "moveTask", ["task"], false⟩,
+     ⟨"drainChannel", "fn", "drainAll", ["fn"], false⟩,
+     ⟨"stopChannel", "", "ticker.Stop", [], true⟩]
+    ∧ (runDispatch.map (·.chan)).Nodup := by decide
+
 end GoZero.C12.TieClients
